@@ -36,6 +36,10 @@ var ordCounter int
 
 func xoValue(c string) (interface{}, bool) {
 	switch c {
+	case "m1":
+		return -1, true
+	case "n0":
+		return 0, true
 	case "n1":
 		return 1, true
 	case "n2":
@@ -191,6 +195,10 @@ func runOrder(id int, items []ordItem, want []string) (o *ordObs) {
 	}
 	for _, it := range items {
 		switch it.XO {
+		case "m1":
+			ints = append(ints, kv{-1, it.Name})
+		case "n0":
+			ints = append(ints, kv{0, it.Name})
 		case "n1":
 			ints = append(ints, kv{1, it.Name})
 		case "n2":
